@@ -105,7 +105,7 @@ static char* read_proc_property (int pid, const char * prop_name)
 
     /* Open file or return */
     snprintf(pid_file, ST_PATH_SIZE_MAX, "/proc/%d/status", pid);
-    fp = fopen(pid_file, "r");
+    fp = fopen(pid_file, "re");
     if (NULL == fp) {
         return NULL;
     }
